@@ -339,6 +339,38 @@ pub fn scan_pass(out: &mut Out, rng: &mut Rng, rounds: u64) {
         }
         out.count("corpus:scan-count-nonpositive");
     }
+    // HSCAN converts field names AND values to Strings (`from_utf8_lossy` / `v.to_string()`): known
+    // finding `C01:hscan-reply-not-binary-safe` (HGET / HGETALL return the stored bytes)
+    {
+        let mut s = reset(out, BASE_MS);
+        let mut seq = vec![];
+        let c = Command::HSet(k("h"), vec![(s_("f"), SDS::new(vec![0xff, 0x00, 0x61]))]);
+        seq.push(format!("{:?}", c));
+        do_step(out, &mut s, &c, "C01", &seq);
+        let hs = Command::HScan { key: k("h"), cursor: 0, pattern: None, count: None };
+        seq.push(format!("{:?}", hs));
+        let ex = &mut s.ex;
+        let r = std::panic::catch_unwind(std::panic::AssertUnwindSafe(|| ex.execute(&hs))).ok();
+        let mut got: Vec<Vec<u8>> = vec![];
+        if let Some(RespValue::Array(Some(v))) = &r {
+            if let Some(RespValue::Array(Some(es))) = v.get(1) {
+                for e in es {
+                    if let RespValue::BulkString(Some(b)) = e {
+                        got.push(b.clone());
+                    }
+                }
+            }
+        }
+        let want = vec![b"f".to_vec(), vec![0xff, 0x00, 0x61]];
+        if got != want {
+            out.violation(
+                "C01:hscan-reply-not-binary-safe",
+                &format!("HSET h f <ff 00 61>; HSCAN h 0 returned {:?}, the stored field and value are {:?} (HGET returns the stored bytes)", got, want),
+                serde_json::json!({"sequence": seq}),
+            );
+        }
+        out.count("corpus:hscan-binary-value");
+    }
     for _ in 0..rounds {
         let mut s = reset(out, BASE_MS + rng.below(1000));
         let mut seq: Vec<String> = vec![];
